@@ -10,7 +10,9 @@
  *
  * args: seed= groups= gsize= steps= nw=
  */
+#ifndef _GNU_SOURCE
 #define _GNU_SOURCE
+#endif
 #include <errno.h>
 #include "hkm.h"
 
